@@ -246,7 +246,7 @@ def _collect(procs, failing, ctx):
             continue
         t = lib.parse_marked(out).get('failing', '')
         t = t.split(': list')[0]
-        for a, b in re.findall(r'\((\d+),\s*(\d+)\)', t):
+        for a, b in re.findall(r'\((\d+)(?:%nat)?,\s*(\d+)(?:%nat)?\)', t):
             failing.setdefault(int(a), []).append(CHECKS[int(b)])
 
 
@@ -432,7 +432,15 @@ def gen_cases(ctx):
         else:
             m = c10_gen.gen_mesh(rng, kind=kind, dims=(2, 2, 1), invert_one=True)
             m['meta']['malformed'] = 'inverted_element'
-            exp = None     # oc is false unless the inverted element is isolated: not asserted
+            # not oriented-conforming exactly when the inverted element shares a face
+            inv = m['meta']['inverted_eid']
+            own = {}
+            for typ, es in m['blocks'].items():
+                for eid, conn in es:
+                    for cyc in FACE_CYCLES[typ]:
+                        own.setdefault(tuple(sorted(conn[j] for j in cyc)), []).append(eid)
+            shared = any(len(v) > 1 and inv in v for v in own.values())
+            exp = {'wf': True, 'oc': not shared}
             want = ['surface', 'to_surface', 'obj']
         c = {'nodes': m['nodes'], 'blocks': m['blocks'], 'meta': m['meta'], 'valid': False,
              'want': want}
@@ -449,7 +457,7 @@ def signature(case, check):
     return {'check': check, 'kind': case['meta'].get('kind'), 'types': sorted(case['blocks'])}
 
 
-def shrink(ctx, case, still_fails, budget=12):
+def shrink(ctx, case, still_fails, budget=8):
     """greedy element removal while `still_fails(case)` holds"""
     cur = case
     for _ in range(budget):
@@ -583,7 +591,7 @@ def main(ctx):
 
     # 6. violations
     reported = 0
-    for cid, bads in sorted(oracle_bad.items())[:6]:
+    for cid, bads in sorted(oracle_bad.items())[:3]:
         c = cases[cid]
         chk = bads[0][0]
 
